@@ -1,7 +1,7 @@
 (* Extraction of the executable model for the correspondence check.
-   Only ExtrOcamlBasic is used (bool, option, unit, prod, list, sumbool, sumor mapped to OCaml's);
-   N, positive, nat stay Coq datatypes; no Extract Constant. *)
-From MST Require Import Sip Base TreeM Diff Statements.
+   Only ExtrOcamlBasic is used (Extract Inductive bool/option/unit/list/prod/sumbool/sumor; Extract Inlined
+   Constant andb/orb); N, positive, nat stay Coq datatypes; no Extract Constant of ours. *)
+From MST Require Import Sip Base TreeM Diff SyncModel.
 Require Extraction ExtrOcamlBasic.
 Extraction Blacklist String List Nat.
 Extraction "mstmodel.ml" siphash24_128 mst_init mst_upsert mst_root_hash mst_serialise
